@@ -118,7 +118,7 @@ def rule_workers(ctx):
         W.received_consumed(ctx, P, fam, wl, "R3")
         W.exit_conditions(ctx, P, fam, wl, wp, "R5")
         W.uniform_workers(ctx, P, [c for c, f in CRATES.items() if f == fam][0], fam, "R2")
-        W.state_retained(ctx, P, [c for c, f in CRATES.items() if f == fam][0], fam, "R2", {"tcp": 0, "http": 2, "tls": 2}[fam])
+        W.state_retained(ctx, P, [c for c, f in CRATES.items() if f == fam][0], fam, "R2", {"tcp": 0, "http": 1, "tls": 1}[fam])
         # R4 same pipeline
         def skeleton(b):
             """the pipeline stages called, ordered by control flow (stage A is before stage B when B is reachable from A and not the
